@@ -84,6 +84,29 @@ def records_for(inst):
             r["raised"] = True
             r["err"] = f"{type(e).__name__}: {str(e)[:80]}"
         recs.append(r)
+    # history: a second dataset with the same mask, noise map and PSF but DIFFERENT data re-uses the first dataset's w-tilde
+    # object (its tables depend on noise, PSF and mask only); its data vector must be B'Wd for ITS data
+    if any(o["type"] == "mapper" for o in inst["objs"]):
+        inst2 = json.loads(json.dumps(inst))
+        inst2["d"] = [int(3 - x) if k % 2 else int(-x - 1) for k, x in enumerate(inst["d"])]
+        r = dict(ic.tla_instance(inst2, M_list))
+        r.update({"p": "C04", "api": "run", "formalism": "w_tilde_shared_tables", "raised": False, "Bm": [], "D": [], "F": []})
+        try:
+            ds2, objs2, _ = ic.build(inst2)
+            st = aa.SettingsInversion(use_w_tilde=True, **skw)
+            inv = aa.Inversion(dataset=ds2, linear_obj_list=objs2, settings=st, preloads=aa.Preloads(w_tilde=ds.w_tilde, use_w_tilde=True))
+            r["cls"] = type(inv).__name__
+            Bm = _to_int(np.asarray(inv.operated_mapping_matrix) * cs[None, :], 2.0 ** (-ke), "B")
+            D = _to_int(np.asarray(inv.data_vector) * cs, 4.0 * 2.0 ** (-ke), "D")
+            F = _to_int(np.asarray(inv.curvature_matrix) * cs[:, None] * cs[None, :], 4.0 * 4.0 ** (-ke), "F")
+            if Bm is None or D is None or F is None:
+                r["raised"], r["err"] = True, "offlattice"
+            else:
+                r["Bm"], r["D"], r["F"] = Bm.tolist(), D.tolist(), F.tolist()
+        except Exception as e:
+            r["raised"] = True
+            r["err"] = f"{type(e).__name__}: {str(e)[:80]}"
+        recs.append(r)
     if recon.get("mapping") is not None and recon.get("w_tilde") is not None:
         (sm, mm), (sw, mw) = recon["mapping"], recon["w_tilde"]
         scale = max(1.0, float(np.abs(sm).max()), float(np.abs(mm).max()))
